@@ -11,6 +11,7 @@ import (
 	"net/http/httptest"
 	"os"
 	"path/filepath"
+	"runtime/debug"
 	"sort"
 	"strconv"
 	"strings"
@@ -311,6 +312,27 @@ func (e *Engine) SendRequest(t Txn) SPOEResult {
 	req := &request.Request{Messages: &msgs}
 	e.Handler(req)
 	return decodeActions(req.Actions)
+}
+
+// SendKV pushes an arbitrary SPOE message through the real routing.Handler: hostile input (missing or
+// ill-typed arguments, header blocks that do not parse). A panic of the handler is returned, not propagated.
+func (e *Engine) SendKV(name string, kvs [][2]any) (res SPOEResult, panicked any) {
+	msg := message.AcquireMessage()
+	msg.Name = name
+	for _, p := range kvs {
+		msg.KV.Add(p[0].(string), p[1])
+	}
+	msgs := message.Messages{msg}
+	req := &request.Request{Messages: &msgs}
+	func() {
+		defer func() {
+			if r := recover(); r != nil {
+				panicked = fmt.Sprintf("%v\n%s", r, debug.Stack())
+			}
+		}()
+		e.Handler(req)
+	}()
+	return decodeActions(req.Actions), panicked
 }
 
 // SendResponse pushes a lunar-on-response message through the real routing.Handler.
